@@ -259,6 +259,18 @@ pub fn gen_ops(rng: &mut Rng, len: usize, exec: &mut dyn FnMut(String) -> String
     let big = g.cap > 16;
     let dump_every = if big { 16 } else { 1 };
     let mut done = 0;
+    if g.rng.chance(12) {
+        // calls that are no-ops: clear() on a fresh map, twice in a row, removals from an empty map
+        (g.exec)("R clear".into());
+        (g.exec)("R dump".into());
+        (g.exec)("R clear".into());
+        let k = g.some_key();
+        (g.exec)(format!("R remove {}", k));
+        (g.exec)("R len".into());
+        (g.exec)("R items".into());
+        (g.exec)("R counts".into());
+        (g.exec)("R dump".into());
+    }
     if case % 11 == 5 {
         g.wide(case);
         done = len / 2;
